@@ -273,8 +273,10 @@ def r02g(ctx):
         c = repo.cls(cname)
         for name, fs in c.methods.items():
             f = fs[0]
+            _al = _index_aliases(f.node)
             stores = [a for a in walk_no_nested(f.node) if isinstance(a, ast.Assign) and len(a.targets) == 1 and isinstance(a.targets[0], ast.Subscript)
-                      and isinstance(a.targets[0].value, ast.Subscript) and isinstance(a.targets[0].value.value, ast.Attribute) and a.targets[0].value.value.attr == "_indexes"]
+                      and ((isinstance(a.targets[0].value, ast.Subscript) and isinstance(a.targets[0].value.value, ast.Attribute) and a.targets[0].value.value.attr == "_indexes")
+                           or (isinstance(a.targets[0].value, ast.Name) and a.targets[0].value.id in _al))]
             if not stores:
                 continue
             cfg = cfg_of(f)
@@ -419,6 +421,64 @@ def r02h(ctx):
                        f"{f.ident}: {why}; nothing invalidates it when the table is edited, so later reads are served the first answer instead of what the XML says")
 
 
+def _index_aliases(fn: ast.FunctionDef) -> set[str]:
+    """locals that stand for one wrapper index: every definition is `<obj>._indexes[<name>]`"""
+    defs: dict[str, list] = {}
+    for a in walk_no_nested(fn):
+        if isinstance(a, ast.Assign) and len(a.targets) == 1 and isinstance(a.targets[0], ast.Name):
+            defs.setdefault(a.targets[0].id, []).append(a.value)
+    return {k for k, vs in defs.items() if all(isinstance(v, ast.Subscript) and isinstance(v.value, ast.Attribute) and v.value.attr == "_indexes" for v in vs)}
+
+
+def _is_index_expr(e: ast.AST, aliases: set[str]) -> bool:
+    return (isinstance(e, ast.Subscript) and isinstance(e.value, ast.Attribute) and e.value.attr == "_indexes") or (isinstance(e, ast.Name) and e.id in aliases)
+
+
+def r02i(ctx):
+    """The wrapper index is keyed by the number the wrapper was fetched with.
+
+    `_indexes[name]` maps the *item index* (the k of "k-th row/cell/column element") to the wrapper of that element; the vault functions, the
+    traversals and the single-item readers all share the one dict per owner.  A reader that files or looks up a wrapper under another number —
+    the logical position it was asked for — still works alone, but the dict then holds two key spaces: the traversal finds under item index 2
+    the wrapper somebody filed for position 2, a different cell whenever a repeated run lies in front.  Rule: in every method of Table and Row
+    that fetches an element with `_get_element_idx2(scheme, k)`, every key used on a wrapper index (store, read, membership test; the index
+    named directly or through a local alias) is that same `k`.
+    """
+    repo = ctx.repo
+    ctx.rule("R02i", "a wrapper index is read and written under the item index the element is fetched with", floor=12)
+    n = 0
+    for cname in ("Table", "Row"):
+        c = repo.cls(cname)
+        for name, fs in sorted(c.methods.items()):
+            for f in fs:
+                if f.cls is not c:
+                    continue
+                fetch = [x for x in walk_no_nested(f.node) if isinstance(x, ast.Call) and call_name(x) == "_get_element_idx2" and len(x.args) >= 2]
+                if not fetch:
+                    continue
+                fetch_keys = {ast.unparse(x.args[1]) for x in fetch}
+                aliases = _index_aliases(f.node)
+                uses = []
+                for x in walk_no_nested(f.node):
+                    if isinstance(x, ast.Subscript) and _is_index_expr(x.value, aliases) and not (isinstance(x.value, ast.Attribute)):
+                        # x = INDEX[key]  (INDEX itself is `obj._indexes[name]`, whose own subscript is the name, not a key)
+                        if isinstance(x.value, ast.Subscript) or isinstance(x.value, ast.Name):
+                            uses.append((x, x.slice))
+                    if isinstance(x, ast.Compare) and len(x.ops) == 1 and isinstance(x.ops[0], (ast.In, ast.NotIn)) and _is_index_expr(x.comparators[0], aliases):
+                        uses.append((x, x.left))
+                for site, key in uses:
+                    n += 1
+                    ok = ast.unparse(key) in fetch_keys
+                    ctx.instance("R02i", f"{f.file}:{f.ident}", f"{norm(site, 40)}: keyed by the fetch index", ok=ok, nontrivial=True, line=site.lineno)
+                    if not ok:
+                        ctx.report("R02i", f, site, f"{norm(site, 40)} key≠fetch",
+                                   f"{f.ident} uses `{norm(key, 20)}` as a key of the wrapper index, but fetches the element with item index `{sorted(fetch_keys)[0]}`: the index is shared "
+                                   f"with the traversals and the vault functions, which key it by item index — with a repeated run in front, a later read or write finds the wrapper of "
+                                   f"another cell (or row) under that number")
+    if n < 12:
+        raise AnalysisError(f"R02i: only {n} keyed use(s) of a wrapper index found")
+
+
 def run(ctx):
     tom = run_tom(ctx.repo)
     r02ab(ctx, tom)
@@ -428,6 +488,7 @@ def run(ctx):
     r02f(ctx)
     r02g(ctx)
     r02h(ctx)
+    r02i(ctx)
     # attaching the caller's own row or cell (instead of a copy) moves a node that already sits in a table while the position map counts a new item (shared with C10)
     from .c10 import r10h
     r10h(ctx)
@@ -439,6 +500,12 @@ _T = "src/odfdo/table.py"
 _R = "src/odfdo/row.py"
 _EC = "src/odfdo/element_cached.py"
 SEEDS = [
+    Seed("the single-cell reader files its wrapper under the position it was asked for", "fault", _R,
+         "        idx = find_odf_idx(self._rmap, x)\n        cell: Cell\n        if idx is not None:\n            if idx in self._indexes[\"_rmap\"]:\n                cell = self._indexes[\"_rmap\"][idx]\n            else:\n                cell = self._get_element_idx2(_xpath_cell_idx, idx)  # type: ignore\n                self._indexes[\"_rmap\"][idx] = cell\n            return cell",
+         "        cache = self._indexes[\"_rmap\"]\n        cell: Cell\n        if x in cache:\n            return cache[x]\n        idx = find_odf_idx(self._rmap, x)\n        if idx is not None:\n            cell = self._get_element_idx2(_xpath_cell_idx, idx)  # type: ignore\n            cache[x] = cell\n            return cell", "R02i"),
+    Seed("the single-cell reader names the wrapper index through a local", "neutral", _R,
+         "        idx = find_odf_idx(self._rmap, x)\n        cell: Cell\n        if idx is not None:\n            if idx in self._indexes[\"_rmap\"]:\n                cell = self._indexes[\"_rmap\"][idx]\n            else:\n                cell = self._get_element_idx2(_xpath_cell_idx, idx)  # type: ignore\n                self._indexes[\"_rmap\"][idx] = cell\n            return cell",
+         "        idx = find_odf_idx(self._rmap, x)\n        cache = self._indexes[\"_rmap\"]\n        cell: Cell\n        if idx is not None:\n            if idx in cache:\n                cell = cache[idx]\n            else:\n                cell = self._get_element_idx2(_xpath_cell_idx, idx)  # type: ignore\n                cache[idx] = cell\n            return cell"),
     Seed("Table.height remembers its answer on the object", "fault", _T,
          "        try:\n            height = self._tmap[-1] + 1\n        except Exception:\n            height = 0\n        return height",
          "        if getattr(self, \"_height\", None) is None:\n            try:\n                self._height = self._tmap[-1] + 1\n            except Exception:\n                self._height = 0\n        return self._height", "R02h"),
@@ -468,9 +535,13 @@ SEEDS = [
     Seed("Row.append_cell forgets the map update", "fault", _R,
          "        self._rmap = insert_map_once(self._rmap, len(self._rmap), _repeated)\n", "", "R02a"),
     Seed("Row.rstrip forgets the rebuild", "fault", _R,
-         "            self.delete(cell)\n        self._compute_row_cache()\n        self._indexes[\"_rmap\"] = {}", "            self.delete(cell)\n        self._indexes[\"_rmap\"] = {}", "R02a"),
+         "                break\n            self.delete(cell)\n        self._compute_row_cache()\n        self._indexes[\"_rmap\"] = {}", "                break\n            self.delete(cell)\n        self._indexes[\"_rmap\"] = {}", "R02a"),
     Seed("Row.rstrip keeps the cell index", "fault", _R,
-         "            self.delete(cell)\n        self._compute_row_cache()\n        self._indexes[\"_rmap\"] = {}", "            self.delete(cell)\n        self._compute_row_cache()", "R02b"),
+         "                break\n            self.delete(cell)\n        self._compute_row_cache()\n        self._indexes[\"_rmap\"] = {}", "                break\n            self.delete(cell)\n        self._compute_row_cache()", "R02b"),
+    Seed("Row._delete_cells leaves the rebuild of the map to extend_cells, which both callers run next", "neutral", _R,
+         "        for cell in self._get_cells():\n            self.delete(cell)\n        self._compute_row_cache()\n        self._indexes[\"_rmap\"] = {}", "        for cell in self._get_cells():\n            self.delete(cell)\n        self._indexes[\"_rmap\"] = {}"),
+    Seed("Row._delete_cells keeps the cell index", "fault", _R,
+         "        for cell in self._get_cells():\n            self.delete(cell)\n        self._compute_row_cache()\n        self._indexes[\"_rmap\"] = {}", "        for cell in self._get_cells():\n            self.delete(cell)\n        self._compute_row_cache()", "R02b"),
     Seed("Row.force_width forgets the rebuild", "fault", _R,
          "            cell._set_repeated(repeated - delta)\n            self._compute_row_cache()", "            cell._set_repeated(repeated - delta)", "R02a"),
     Seed("insert_column keeps the row index", "fault", _T,
